@@ -825,7 +825,8 @@ func (e *Env) call(x *dsl.Expr) (v Val, rerr *Err) {
 		pt := ft.In(i)
 		if pt.Kind() == reflect.Interface {
 			if a.C == 'z' {
-				in[i] = reflect.Zero(pt)
+				e.unspecified("value-less expression passed as an argument")
+				return Val{}, errf("unspec", "no value")
 			} else {
 				in[i] = reflect.ValueOf(toGo(a))
 				if !in[i].Type().AssignableTo(pt) {
